@@ -17,8 +17,9 @@ from .common import Discard, run_alg, well_formed, dataset_tags
 ID = "C04"
 ENVS = ["absent", "present", "broken", "absent"]
 RUNS = {"quick": 16000, "thorough": 200000}
-RULE = ("case = (dataset, valid scheme, 3-5 algorithm calls each with RNG schedule, return_at_most_one flag and a read "
-        "history over features[KEMENY_SCORE] / kemeny_score / description() / str()); distinct = distinct case digest; "
+RULE = ("case = (two datasets, two valid schemes, a history interleaving 3-6 algorithm calls on shared algorithm "
+        "instances (RNG schedule, return_at_most_one flag, which dataset/scheme) with reads of features[KEMENY_SCORE] / "
+        "kemeny_score / description() / str() on any consensus made so far); distinct = distinct case digest; "
         "non-trivial = at least one reported score of a consensus over >= 2 elements was compared with the reference")
 LEVEL_TEXT = ("seeded search over datasets x schemes x algorithm configurations x read histories x cplex environments; "
               "every reported number is compared (1e-6) with an independent reference scorer applied to every returned "
@@ -33,14 +34,25 @@ def gen_case(st, tier, env):
     w, k = st.workload, st.knobs
     ds = gen.gen_dataset(w, n_max=6 if k.random() < 0.8 else 8, m_max=6)
     scheme = gen.gen_scheme(w, dyadic=k.random() < 0.6)
-    n_univ = len({e for r in ds["rankings"] for b in r for e in b})
-    calls = []
-    for _ in range(k.choice([3, 4, 5])):
-        a = gen.gen_alg(w, env, heavy_ok=n_univ <= 6)
-        reads = [st.schedule.choice(READS) for _ in range(st.schedule.randint(1, 5))]
-        calls.append({"alg": a, "one": k.choice([True, False, None]), "sched": gen.gen_sched(st.schedule),
-                      "reads": reads})
-    return {"dataset": ds, "scheme": scheme, "calls": calls}
+    # a second dataset / scheme: the same algorithm *instances* serve both, and the reads are interleaved, so a
+    # score cached on an instance (or anywhere but the consensus it belongs to) shows up as another consensus' score
+    ds2 = gen.gen_dataset(w, n_max=5, m_max=5)
+    scheme2 = gen.gen_scheme(w, dyadic=k.random() < 0.6)
+    n_univ = max(len({e for r in d["rankings"] for b in r for e in b}) for d in (ds, ds2))
+    algs = [gen.gen_alg(w, env, heavy_ok=n_univ <= 6) for _ in range(k.choice([2, 3, 4]))]
+    ops = []
+    ncalls = k.choice([3, 4, 5, 6])
+    made = 0
+    while made < ncalls or len(ops) < ncalls + 3:
+        if made < ncalls and (made == 0 or st.schedule.random() < 0.5):
+            ops.append({"op": "call", "alg": w.choice(algs), "one": k.choice([True, False, None]),
+                        "sched": gen.gen_sched(st.schedule), "ds": int(w.random() < 0.35), "sc": int(w.random() < 0.3)})
+            made += 1
+        else:
+            ops.append({"op": "read", "t": st.schedule.randrange(64), "what": st.schedule.choice(READS)})
+        if len(ops) > 24:
+            break
+    return {"dataset": ds, "scheme": scheme, "dataset2": ds2, "scheme2": scheme2, "ops": ops}
 
 
 def nontrivial(probes):
@@ -52,98 +64,119 @@ def _is_real(v):
 
 
 def run_case(case, ctx):
-    mr = model.normalise(case["dataset"]["rankings"])
-    B, T = case["scheme"]["B"], case["scheme"]["T"]
-    tags = dataset_tags(mr, case["scheme"])
-    ds = build_dataset(case["dataset"])
-    sc = build_scheme(case["scheme"])
-    ctx.event("world", model.canon(mr), B, T, ctx.env)
-    for c in case["calls"]:
-        try:
-            out = run_alg(c["alg"], ds, sc, c["one"], c["sched"])
-        except Discard:
-            ctx.probe("discarded_stub_capacity")
-            continue
-        ctx.event("call", out.label, c["one"], out.brief(), out.picks)
-        if out.kind != "returned":
-            ctx.probe(out.kind)
-            continue
-        if well_formed(out.cons, mr, False):
-            ctx.probe("malformed_skipped")  # cannot be scored; C03 reports it
-            continue
-        cons = out.cons
-        rks = [canon_ranking(r) for r in cons.consensus_rankings]
-        refs = [model.ref_score(r, mr, B, T) for r in rks]
-        ctx.event("result", [jsonable_ranking(r) for r in rks], refs)
-        t = dict(tags, alg=out.label.split("(")[0], env=ctx.env, label=out.label)
-        repro = dict(case, calls=[dict(c, sched={"draws": out.picks, "fallback": "first", "seed": 0})])
+    dspecs = [case["dataset"], case.get("dataset2") or case["dataset"]]
+    sspecs = [case["scheme"], case.get("scheme2") or case["scheme"]]
+    mrs = [model.normalise(d["rankings"]) for d in dspecs]
+    dss = [build_dataset(d) for d in dspecs]
+    scs = [build_scheme(x) for x in sspecs]
+    ctx.event("world", [model.canon(m) for m in mrs], [[x["B"], x["T"]] for x in sspecs], ctx.env)
+    instances = {}
+    made = []  # per consensus: dict(cons, rks, refs, computed, label, tags, history, call index)
 
-        def check(v, how, supplied):
-            ctx.probe("score_checked")
-            if tags["n"] >= 2:
-                ctx.probe("score_checked_n2")
-            ctx.probe("supplied_score_checked" if supplied else "lazy_score_checked")
-            problem = None
-            if v is None:
-                problem = "absent (None)"
-            elif not _is_real(v):
-                problem = f"not a number: {type(v).__name__}"
-            elif math.isnan(float(v)):
-                problem = "NaN"
-            elif float(v) < -1e-6:  # rounding noise within the statement's own 1e-6 tolerance is not "negative"
-                problem = f"negative: {float(v)}"
-            else:
-                worst = max(abs(float(v) - r) for r in refs)
-                if worst > 1e-6:
-                    problem = f"reported {float(v)!r}"
-            if problem:
-                ctx.violate("C04/wrong-score" if problem.startswith("reported") else "C04/absent-or-negative",
-                            {"read": how, "value": problem, "rankings": [jsonable_ranking(r) for r in rks]},
-                            {"reference_scores": refs}, dict(t, read=how, supplied=supplied), out.label)
+    def check(c, v, how, supplied, repro):
+        ctx.probe("score_checked")
+        if c["tags"]["n"] >= 2:
+            ctx.probe("score_checked_n2")
+        ctx.probe("supplied_score_checked" if supplied else "lazy_score_checked")
+        problem = None
+        if v is None:
+            problem = "absent (None)"
+        elif not _is_real(v):
+            problem = f"not a number: {type(v).__name__}"
+        elif math.isnan(float(v)):
+            problem = "NaN"
+        elif float(v) < -1e-6:  # rounding noise within the statement's own 1e-6 tolerance is not "negative"
+            problem = f"negative: {float(v)}"
+        else:
+            worst = max(abs(float(v) - r) for r in c["refs"])
+            if worst > 1e-6:
+                problem = f"reported {float(v)!r}"
+        if problem:
+            ctx.violate("C04/wrong-score" if problem.startswith("reported") else "C04/absent-or-negative",
+                        {"read": how, "value": problem, "rankings": [jsonable_ranking(r) for r in c["rks"]],
+                         "consensus_no": c["no"], "reads_so_far": c["history"]},
+                        {"reference_scores": c["refs"]}, dict(c["tags"], read=how, supplied=supplied), c["label"])
+            ctx.violations[-1]["case_override"] = repro
+
+    for i, op in enumerate(case["ops"]):
+        repro = dict(case, ops=case["ops"][:i + 1])
+        if op["op"] == "call":
+            wd, ws = op.get("ds", 0), op.get("sc", 0)
+            from ..lib import alg_label, build_alg, call as _call
+            label = alg_label(op["alg"])
+            if label not in instances:
+                okb, inst = _call(build_alg, op["alg"])
+                if not okb:
+                    ctx.probe("constructor_raised")
+                    continue
+                instances[label] = inst
+            try:
+                out = run_alg(op["alg"], dss[wd], scs[ws], op["one"], op["sched"], alg=instances[label])
+            except Discard:
+                ctx.probe("discarded_stub_capacity")
+                continue
+            ctx.event("call", out.label, op["one"], wd, ws, out.brief(), out.picks)
+            if out.kind != "returned":
+                ctx.probe(out.kind)
+                continue
+            if well_formed(out.cons, mrs[wd], False):
+                ctx.probe("malformed_skipped")  # cannot be scored; C03 reports it
+                continue
+            rks = [canon_ranking(r) for r in out.cons.consensus_rankings]
+            B, T = sspecs[ws]["B"], sspecs[ws]["T"]
+            refs = [model.ref_score(r, mrs[wd], B, T) for r in rks]
+            ctx.event("result", [jsonable_ranking(r) for r in rks], refs)
+            tags = dict(dataset_tags(mrs[wd], sspecs[ws]), alg=out.label.split("(")[0], env=ctx.env, label=out.label,
+                        second_inputs=bool(wd or ws))
+            made.append({"cons": out.cons, "rks": rks, "refs": refs, "computed": False, "label": out.label,
+                         "tags": tags, "history": [], "no": len(made)})
+            if out.picks:
+                ctx.schedules.add(digest([out.label, out.picks]))
+            continue
+        # ---- a read of one of the consensuses made so far ---------------------------------------------------------
+        if not made:
+            continue
+        c = made[op["t"] % len(made)]
+        cons, rd = c["cons"], op["what"]
+        c["history"].append(rd)
+        ctx.event("read", c["no"], rd)
+        if rd == "features":
+            ok, feats = call(lambda: cons.features)
+            if not ok or ConsensusFeature.KEMENY_SCORE not in feats:
+                ctx.violate("C04/absent-or-negative", {"read": "features", "value": "no KEMENY_SCORE entry"},
+                            "a score or the -1 sentinel", c["tags"], c["label"])
                 ctx.violations[-1]["case_override"] = repro
-
-        computed = False
-        history = []
-        for rd in c["reads"]:
-            history.append(rd)
-            if rd == "features":
-                ok, feats = call(lambda: cons.features)
-                if not ok or ConsensusFeature.KEMENY_SCORE not in feats:
-                    ctx.violate("C04/absent-or-negative", {"read": "features", "value": "no KEMENY_SCORE entry"},
-                                "a score or the -1 sentinel", t, out.label)
-                    ctx.violations[-1]["case_override"] = repro
-                    continue
-                v = feats[ConsensusFeature.KEMENY_SCORE]
-                if not computed and _is_real(v) and float(v) == -1.0:
-                    ctx.probe("sentinel_seen")  # documented "not computed yet"
-                    continue
-                check(v, "features" + ("" if computed else " (supplied by the algorithm)"), not computed)
-            elif rd == "kemeny_score":
-                ok, v = call(lambda: cons.kemeny_score)
-                computed = True
-                if not ok:
-                    ctx.violate("C04/read-raised", f"kemeny_score raised {exc_label(v)}: {str(v)[:120]}", "a number", t,
-                                out.label)
-                    ctx.violations[-1]["case_override"] = repro
-                    continue
-                check(v, "kemeny_score", False)
-            elif rd == "description":
-                ok, d = call(cons.description)
-                computed = True
-                if not ok:
-                    ctx.violate("C04/read-raised", f"description() raised {exc_label(d)}: {str(d)[:120]}", "a text", t,
-                                out.label)
-                    ctx.violations[-1]["case_override"] = repro
-                    continue
-                line = [ln for ln in d.split("\n") if ConsensusFeature.KEMENY_SCORE.value in ln]
-                if line:
-                    txt = line[0].split(ConsensusFeature.KEMENY_SCORE.value, 1)[1].strip()
-                    try:
-                        v = float(txt)
-                    except ValueError:
-                        v = None
-                    check(v, "description()", False)
-            else:
-                call(lambda: str(cons))
-        ctx.state([out.label, history])
-        ctx.schedules.add(digest([out.label, history, out.picks]))
+                continue
+            v = feats[ConsensusFeature.KEMENY_SCORE]
+            if not c["computed"] and _is_real(v) and float(v) == -1.0:
+                ctx.probe("sentinel_seen")  # documented "not computed yet"
+                continue
+            check(c, v, "features" + ("" if c["computed"] else " (supplied by the algorithm)"), not c["computed"], repro)
+        elif rd == "kemeny_score":
+            ok, v = call(lambda: cons.kemeny_score)
+            c["computed"] = True
+            if not ok:
+                ctx.violate("C04/read-raised", f"kemeny_score raised {exc_label(v)}: {str(v)[:120]}", "a number",
+                            c["tags"], c["label"])
+                ctx.violations[-1]["case_override"] = repro
+                continue
+            check(c, v, "kemeny_score", False, repro)
+        elif rd == "description":
+            ok, d = call(cons.description)
+            c["computed"] = True
+            if not ok:
+                ctx.violate("C04/read-raised", f"description() raised {exc_label(d)}: {str(d)[:120]}", "a text",
+                            c["tags"], c["label"])
+                ctx.violations[-1]["case_override"] = repro
+                continue
+            line = [ln for ln in d.split("\n") if ConsensusFeature.KEMENY_SCORE.value in ln]
+            if line:
+                txt = line[0].split(ConsensusFeature.KEMENY_SCORE.value, 1)[1].strip()
+                try:
+                    v = float(txt)
+                except ValueError:
+                    v = None
+                check(c, v, "description()", False, repro)
+        else:
+            call(lambda: str(cons))
+        ctx.state([c["label"], c["history"][-3:]])
